@@ -34,6 +34,8 @@ def h30(b):
 def norm(v):
     if v is None or v is True or v is False:
         return str(v)
+    if isinstance(v, str) and v.startswith("tag:"):
+        return v
     if isinstance(v, (bytes, bytearray)):
         return "b:" + hashlib.sha1(bytes(v)).hexdigest()[:10]
     if isinstance(v, nfc.tag.Tag.NDEF):
@@ -57,6 +59,7 @@ class FaultClf(object):
         self.cur = None
         self.curcc = "-"
         self.clean = []
+        self.activation = False  # the operation under test is nfc.tag.activate(): every exchange is of class "act"
 
     def sense(self, target, **kw):
         return target           # the tag is still there (Type 2 re-sense after a NAK)
@@ -65,6 +68,8 @@ class FaultClf(object):
         self.armed, self.script = True, script
 
     def _cc(self, data):
+        if self.activation:
+            return "act"
         if self.proto == "T2" and self.sim.expects_packet2():
             return "ssel2"
         if self.proto == "T4":
@@ -78,6 +83,9 @@ class FaultClf(object):
 
     def _process(self, data):
         """-> (response or None, executed)"""
+        if self.proto == "T4" and not self.sim.active:
+            rep = self.sim.activate(data)                    # RATS / ATTRIB
+            return rep, rep is not None, dict(t="ATS", bn=0)
         if self.proto == "T4":
             rep, rd = self.sim.block(data)
             return rep, self.sim.last_ex != 0, rd
@@ -86,18 +94,15 @@ class FaultClf(object):
 
     def exchange(self, data, timeout):
         data = bytes(data)
-        if self.proto == "T4" and not self.sim.active:
-            rsp = self.sim.activate(data)
-            if rsp is None:
-                raise nfc.clf.TimeoutError("activation")
-            return bytearray(rsp)
         if not self.armed:
             rsp, ex, rd = self._process(data)
             if rsp is None:
                 raise nfc.clf.TimeoutError("mute")
             return bytearray(rsp)
         cc = self._cc(data)
-        if self.proto == "T4":
+        if self.activation:
+            same = False
+        elif self.proto == "T4":
             same = (self.last == "fault" and (cc == "R" and (self.curcc == "I" or data == self.cur))) or \
                    (self.last == "rack")
         else:
@@ -127,6 +132,11 @@ class FaultClf(object):
             self.last = "fault"
             raise EXC[self.script["k"]]("scripted")
         rsp, ex, rd = self._process(data)
+        if rsp is None and cc == "act":
+            # a probe the tag does not know: silence is the tag's answer (the code takes the time-out for "unsupported")
+            self.ev.append(dict(e="Answer", rk="mute", ex=False))
+            self.last = "answer"
+            raise nfc.clf.TimeoutError("mute tag")
         if rsp is None:
             self.ev.append(dict(e="Fault", k="timeout", ex=bool(ex)))
             self.last = "fault"
@@ -143,38 +153,51 @@ class FaultClf(object):
 # ------------------------------------------------------------------------------------------------
 # tag classes: factory -> (proto, nRetry, sim, clf, tag)
 
-def make_t1(hr=b"\x11\x48"):
+# with activated=False the factory stops before nfc.tag.activate(): the last element is the RemoteTarget, and the
+# activation itself becomes the operation under test (ACTIVATE)
+
+def make_t1(hr=b"\x11\x48", activated=True):
     sim = SimT1(hr=hr)
     clf = FaultClf("T1", sim)
     target = nfc.clf.RemoteTarget("106A", sens_res=bytearray(b"\x00\x0C"), rid_res=bytearray(sim.rid_res()))
-    return "T1", 0, sim, clf, nfc.tag.activate(clf, target)
+    return "T1", 0, sim, clf, nfc.tag.activate(clf, target) if activated else target
 
 
-def make_t2(size=64):
-    sim = SimT2(size=size)
+def make_t2(size=64, activated=True, **kw):
+    sim = SimT2(size=size, **kw)
     clf = FaultClf("T2", sim)
     target = nfc.clf.RemoteTarget("106A", sens_res=bytearray(b"\x44\x00"), sel_res=bytearray(b"\x00"),
                                   sdd_res=bytearray(sim.uid))
-    return "T2", 0, sim, clf, nfc.tag.activate(clf, target)
+    return "T2", 0, sim, clf, nfc.tag.activate(clf, target) if activated else target
 
 
-def make_t3():
-    sim = SimT3()
+def make_t3(activated=True, **kw):
+    sim = SimT3(**kw)
     clf = FaultClf("T3", sim)
     target = nfc.clf.RemoteTarget("212F", sensf_res=bytearray(sim.sensf_res()))
-    return "T3", 0, sim, clf, nfc.tag.activate(clf, target)
+    return "T3", 0, sim, clf, nfc.tag.activate(clf, target) if activated else target
 
 
-def make_t4(fwi=10, fsci=2, rchunk=20, wtx=False):
+def make_t4(fwi=10, fsci=2, rchunk=20, wtx=False, activated=True, typ="A", ats="abc"):
     app = NdefApplet()
     # wtx: the card asks for a waiting time extension before every block it produces (rule 9)
-    sim = SimPicc(app, fsci=fsci, fwi=fwi, rchunk=rchunk, wtx_plan=[True, False] * 400 if wtx else ())
+    sim = SimPicc(app, fsci=fsci, fwi=fwi, rchunk=rchunk, wtx_plan=[True, False] * 400 if wtx else (), typ=typ, ats=ats)
     sim.app = app
     clf = FaultClf("T4", sim)
-    target = nfc.clf.RemoteTarget("106A", sens_res=bytearray(b"\x44\x03"), sel_res=bytearray(b"\x20"),
-                                  sdd_res=bytearray(b"\x08\x11\x22\x33"))
+    if typ == "A":
+        target = nfc.clf.RemoteTarget("106A", sens_res=bytearray(b"\x44\x03"), sel_res=bytearray(b"\x20"),
+                                      sdd_res=bytearray(b"\x08\x11\x22\x33"))
+    else:
+        target = nfc.clf.RemoteTarget("106B", sensb_res=bytearray(sim.sensb_res()))
     fwt = 4096 / 13.56E6 * 2 ** fwi
-    return "T4", min(int(1 / fwt), 5), sim, clf, nfc.tag.activate(clf, target)
+    return "T4", min(int(1 / fwt), 5), sim, clf, nfc.tag.activate(clf, target) if activated else target
+
+
+def ACTIVATE(target_and_clf):
+    """the operation nfc.tag.activate(clf, target): documented result is a tag object or None, never an exception"""
+    clf, target = target_and_clf
+    tag = nfc.tag.activate(clf, target)
+    return None if tag is None else "tag:" + type(tag).__name__
 
 
 NDEF2 = bytes.fromhex("D1010B5402656E") + b"verif-c16"
@@ -278,6 +301,27 @@ def ops_table():
               [o for o in t4_chain if o[0] in ("update_binary_chained", "read_binary_chained")], (1, 3, 5, 6)))  # n_retry 5
     # the card requests S(WTX) before every answer: the S(WTX) exchange is a fault position of its own; after a fault in it
     # the command's recovery block (R(NAK) / R(ACK)) is due, in command chaining and in response chaining
+    # activation: nfc.tag.activate(clf, target) on every tag type / vendor variant of the harness; every exchange of the
+    # activation (RATS, ATTRIB, the AUTHENTICATE / GET_VERSION probes of tt2_nxp) is a fault position of budget 1
+    NTAG213 = b"\x00\x04\x04\x02\x01\x00\x0F\x03"
+    NXP = b"\x04\x51\x7C\xA1\xE1\xED\x25"
+    act = [("activate", nop, ACTIVATE, ["any"], "qt")]
+    for name, fac in [
+            ("Topaz", lambda **k: make_t1(b"\x11\x48", **k)), ("Type1Tag", lambda **k: make_t1(b"\x11\x00", **k)),
+            ("Topaz512", lambda **k: make_t1(b"\x12\x4C", **k)),
+            ("Type2Tag", lambda **k: make_t2(64, **k)),
+            ("NTAG213", lambda **k: make_t2(180, uid=NXP, version=NTAG213, **k)),
+            ("MifareUltralight", lambda **k: make_t2(64, uid=NXP, **k)),
+            ("MifareUltralightC", lambda **k: make_t2(192, uid=NXP, auth=True, **k)),
+            ("NTAG203", lambda **k: make_t2(168, uid=NXP, version=b"\x00", **k)),
+            ("Type3Tag", lambda **k: make_t3(**k)),
+            ("FelicaLite", lambda **k: make_t3(pmm=b"\x00\xF0\x00\x00\x02\x06\x03\x00", **k)),
+            ("FelicaLiteS", lambda **k: make_t3(pmm=b"\x00\xF1\x00\x00\x02\x06\x03\x00", **k)),
+            ("Type4ATag", lambda **k: make_t4(10, 2, 20, **k)),
+            ("Type4ATag-ats-b", lambda **k: make_t4(11, 0, 20, ats="b", **k)),
+            ("Type4ATag-ats-none", lambda **k: make_t4(4, 2, 20, ats="none", **k)),
+            ("Type4BTag", lambda **k: make_t4(9, 3, 20, typ="B", **k))]:
+        T.append(("activation-" + name, fac, act, (1, 2, 3, 4)))
     T.append(("Type4ATag-wtx", lambda: make_t4(10, 0, 10, wtx=True),
               [o for o in t4_chain if o[0] in ("update_binary_chained", "read_binary_chained", "ndef_read_chained")],
               (1, 2, 3, 4)))
@@ -298,10 +342,15 @@ def raise_site(exc):
 
 
 def run_one(factory, setup, op, script):
-    proto, nretry, sim, clf, tag = factory()
-    if tag is None:
-        raise RuntimeError("activation failed")
-    setup(tag)
+    if op is ACTIVATE:
+        proto, nretry, sim, clf, target = factory(activated=False)
+        tag = (clf, target)
+        clf.activation = True
+    else:
+        proto, nretry, sim, clf, tag = factory()
+        if tag is None:
+            raise RuntimeError("activation failed")
+        setup(tag)
     clf.arm(script)
     kind, errno, val, site = "ok", 0, "-", "-"
     try:
